@@ -67,13 +67,45 @@ def in_loop(x: FLOAT[None]) -> FLOAT[None]:
     for i in range(3):
         acc = helper(acc)
     return acc
+
+d1 = Opset("dom.one", 1)
+d2 = Opset("dom.two", 1)
+
+@script(d1, default_opset=op)
+def F(x):
+    return op.Add(x, op.Constant(value_float=1.0))
+
+F1 = F
+
+@script(d2, default_opset=op)
+def F(x):
+    return op.Mul(x, op.Constant(value_float=10.0))
+
+F2 = F
+
+@script(default_opset=op)
+def same_name_two_domains(x: FLOAT[None]) -> FLOAT[None]:
+    return F1(x) + F2(x)
 """
 d = tempfile.mkdtemp(); path = os.path.join(d, "mp_case.py"); open(path, "w").write(src)
 spec = importlib.util.spec_from_file_location("mp_case", path); mod = importlib.util.module_from_spec(spec); sys.modules["mp_case"] = mod; spec.loader.exec_module(mod)
 import onnx
 bad = 0
-for name in ("top_level", "in_branch", "in_loop"):
+for name in ("top_level", "in_branch", "in_loop", "same_name_two_domains"):
     m = getattr(mod, name).to_model_proto()
+    def calls(g):
+        for n in g.node:
+            if n.domain not in ("", "ai.onnx"):
+                yield (n.domain, n.op_type)
+            for a in n.attribute:
+                if a.HasField("g"):
+                    yield from calls(a.g)
+    have = {(f.domain, f.name) for f in m.functions}
+    absent = sorted(set(calls(m.graph)) - have)
+    if absent:
+        print(f"{name}: the graph calls {absent} but the model only carries the functions {sorted(have)}")
+        bad += 1
+        continue
     doms = [o.domain for o in m.opset_import]
     fdoms = sorted({f.domain for f in m.functions})
     missing = [d for d in fdoms if d not in doms]
